@@ -448,6 +448,17 @@ func (p *Packer) Unpack(r io.Reader, dst string) error {
 			continue
 		}
 
+		// A file or directory entry replaces a symlink extracted earlier at
+		// the same path. It must never be written, or have its permissions
+		// and times restored, through that link.
+		if info.IsDirectory() || info.IsRegular() {
+			if fi, err := os.Lstat(info.Path); err == nil && fi.Mode()&os.ModeSymlink != 0 {
+				if err := os.Remove(info.Path); err != nil {
+					return fmt.Errorf("failed to replace symlink %q: %w", info.Path, err)
+				}
+			}
+		}
+
 		if info.IsDirectory() {
 			// Restore directory info after all files are extracted because
 			// the extraction process changes directory's timestamps.
